@@ -250,6 +250,7 @@ EXC_PARENTS = {
     'RuntimeError': ['Exception'], 'ValueError': ['Exception'], 'TypeError': ['Exception'],
     'UnicodeDecodeError': ['ValueError'], 'UnicodeEncodeError': ['ValueError'],
     'UnicodeError': ['ValueError'], 'AttributeError': ['Exception'],
+    'UnboundLocalError': ['NameError'], 'NameError': ['Exception'],
     'IndexError': ['LookupError'], 'KeyError': ['LookupError'], 'LookupError': ['Exception'],
     'ZeroDivisionError': ['ArithmeticError'], 'ArithmeticError': ['Exception'],
     'OverflowError': ['ArithmeticError'], 'InvalidVersion': ['ValueError'],
@@ -665,12 +666,32 @@ class Interp:
     def handler_matches(self, h, exc):
         if h.type is None:
             return True
-        types = h.type.elts if isinstance(h.type, ast.Tuple) else [h.type]
+        types = self.handler_types(h.type)
         for t in types:
             name = self.exc_name(t)
             if exc_is_subclass(str(exc), name):
                 return True
         return False
+
+    def handler_types(self, t, depth=0):
+        """Exception class expressions of a handler: tuples are flattened and module-level names
+        bound to tuples of exception classes (e.g. COMM_ERRORS = (SerialException, OSError)) are
+        expanded."""
+        if isinstance(t, ast.Tuple):
+            out = []
+            for e in t.elts:
+                out.extend(self.handler_types(e, depth))
+            return out
+        if isinstance(t, ast.Name) and depth < 3:
+            g = self.cur.module.globals.get(t.id)
+            if isinstance(g, ast.Tuple):
+                return self.handler_types(g, depth + 1)
+        if isinstance(t, ast.Attribute) and isinstance(t.value, ast.Name) and depth < 3 and \
+                t.value.id == 'self' and self.cur.cls is not None:
+            expr, _ = self.cur.cls.lookup_attr(t.attr)
+            if isinstance(expr, ast.Tuple):
+                return self.handler_types(expr, depth + 1)
+        return [t]
 
     def exc_name(self, t):
         txt = ast.unparse(t)
@@ -952,7 +973,44 @@ class Interp:
         if name in st.env:
             yield st.env[name], st
             return
+        if name in self.local_names(self.cur):
+            # a local that is assigned somewhere in the function but not on this path
+            yield None, st.raising('UnboundLocalError').note(('unbound-local', name, node.lineno))
+            return
         yield self.global_name(name), st
+
+    _LOCALS = {}
+
+    def local_names(self, fn):
+        key = id(fn.node)
+        got = self._LOCALS.get(key)
+        if got is None:
+            names, declared = set(), set()
+            stack = list(fn.node.body)
+            while stack:
+                n = stack.pop()
+                if isinstance(n, (ast.FunctionDef, ast.AsyncFunctionDef, ast.ClassDef, ast.Lambda)):
+                    if not isinstance(n, ast.Lambda):
+                        names.add(n.name)
+                    continue
+                if isinstance(n, (ast.Global, ast.Nonlocal)):
+                    declared.update(n.names)
+                if isinstance(n, ast.Name) and isinstance(n.ctx, (ast.Store, ast.Del)):
+                    names.add(n.id)
+                if isinstance(n, ast.ExceptHandler) and n.name:
+                    names.add(n.name)
+                if isinstance(n, (ast.Import, ast.ImportFrom)):
+                    for al in n.names:
+                        names.add((al.asname or al.name).split('.')[0])
+                if isinstance(n, (ast.ListComp, ast.SetComp, ast.DictComp, ast.GeneratorExp)):
+                    # comprehension targets live in their own scope
+                    for g in n.generators:
+                        stack.append(g.iter)
+                    continue
+                stack.extend(ast.iter_child_nodes(n))
+            got = (names - declared) - set(fn.params) - {'self'}
+            self._LOCALS[key] = got
+        return got
 
     def global_name(self, name):
         mod = self.cur.module
